@@ -321,26 +321,26 @@ func runProperty() int {
 			"explanation": "Static analysis of /repo's current working tree (type-checked with go/packages, lowered to go/ssa, VTA call graph). " +
 				"Each rule is evaluated on every path of every function it applies to; an obligation is one rule instance on one construct (function + call site / value). " +
 				"Decides: " + ps.Decides + " Does NOT decide: " + ps.NotDecided,
-			"obligations":               nObl,
-			"discharged":                nDis,
-			"exempt_by_named_exception": nEx,
-			"violated_new":              nViol,
-			"violated_known_findings":   nKnown,
-			"evaluations":               nObl,
-			"distinct_nontrivial":       len(distinct),
-			"rule":                      "one obligation per (rule, construct); constructs are discovered through the type-checked program and call graph, not named; distinct = distinct (rule,construct-key) pairs",
-			"samples":                   samples,
-			"rules":                     ruleSumm,
-			"packages_analysed":         len(pkgNames),
-			"packages_total_in_closure": p.NTotal,
-			"package_list":              pkgNames,
-			"repo_functions_with_ssa":   len(p.RepoFuncs),
-			"callgraph":                 map[string]interface{}{"algorithm": "VTA seeded with CHA (golang.org/x/tools v0.29.0)", "nodes": len(p.CG.Nodes)},
-			"build_configurations":      append([]string{runtime.GOOS + "/" + runtime.GOARCH + " (default tags)"}, altNames(altOut)...),
+			"obligations":                nObl,
+			"discharged":                 nDis,
+			"exempt_by_named_exception":  nEx,
+			"violated_new":               nViol,
+			"violated_known_findings":    nKnown,
+			"evaluations":                nObl,
+			"distinct_nontrivial":        len(distinct),
+			"rule":                       "one obligation per (rule, construct); constructs are discovered through the type-checked program and call graph, not named; distinct = distinct (rule,construct-key) pairs",
+			"samples":                    samples,
+			"rules":                      ruleSumm,
+			"packages_analysed":          len(pkgNames),
+			"packages_total_in_closure":  p.NTotal,
+			"package_list":               pkgNames,
+			"repo_functions_with_ssa":    len(p.RepoFuncs),
+			"callgraph":                  map[string]interface{}{"algorithm": "VTA seeded with CHA (golang.org/x/tools v0.29.0)", "nodes": len(p.CG.Nodes)},
+			"build_configurations":       append([]string{runtime.GOOS + "/" + runtime.GOARCH + " (default tags)"}, altNames(altOut)...),
 			"alternative_configurations": altOut,
-			"rule_self_validation":      selfOut,
-			"helper_packages_excluded":  helperPkgSuffixes,
-			"checker_cmd":               "/verif/check " + prop + " " + *flagTier,
+			"rule_self_validation":       selfOut,
+			"helper_packages_excluded":   helperPkgSuffixes,
+			"checker_cmd":                "/verif/check " + prop + " " + *flagTier,
 			"trusted_base": []string{"go/types and go/ssa (x/tools v0.29.0) model Go's semantics faithfully",
 				"VTA call graph is sound for the repo's reflection-free code (reflect.Select in merge.mergeTables only hides channel receives)",
 				"frozen tables of anchors/exceptions in /verif/checker (each exception one named symbol with a reason)",
